@@ -114,6 +114,12 @@ func DumpFuncs(repo string) error {
 		for _, d := range f.Decls {
 			if fd, ok := d.(*ast.FuncDecl); ok {
 				keys = append(keys, funcDeclKey(rel, fd))
+				if countIIFE(fd) > 0 {
+					keys = append(keys, "iife:"+funcDeclKey(rel, fd))
+				}
+				if countLocalClosureDefs(fd) > 0 {
+					keys = append(keys, "lclosure:"+funcDeclKey(rel, fd))
+				}
 			}
 		}
 	}
@@ -122,6 +128,178 @@ func DumpFuncs(repo string) error {
 		fmt.Println(k)
 	}
 	return nil
+}
+
+type localClosure struct {
+	name     string
+	def      *ast.AssignStmt
+	lit      *ast.FuncLit
+	sig      *types.Signature
+	sites    []*siteInfo
+	hasDefer bool
+}
+
+// localClosures finds "name := func(...) {...}" statements of fd whose variable is only ever called (1..4 calls, all in
+// fd itself and not inside another function literal or a go / defer statement), never reassigned, not recursive, and
+// whose free variables mean the same at every call site.
+func localClosures(pk *packages.Package, fd *ast.FuncDecl) []*localClosure {
+	var out []*localClosure
+	byObj := map[types.Object]*localClosure{}
+	ast.Inspect(fd.Body, func(n ast.Node) bool {
+		as, ok := n.(*ast.AssignStmt)
+		if !ok || as.Tok != token.DEFINE || len(as.Lhs) != 1 || len(as.Rhs) != 1 {
+			return true
+		}
+		id, ok := as.Lhs[0].(*ast.Ident)
+		lit, ok2 := as.Rhs[0].(*ast.FuncLit)
+		if !ok || !ok2 {
+			return true
+		}
+		obj := pk.TypesInfo.Defs[id]
+		sig, ok := pk.TypesInfo.TypeOf(lit).(*types.Signature)
+		if obj == nil || !ok || sig.Variadic() {
+			return true
+		}
+		lc := &localClosure{name: id.Name, def: as, lit: lit, sig: sig}
+		byObj[obj] = lc
+		out = append(out, lc)
+		return true
+	})
+	if len(out) == 0 {
+		return nil
+	}
+	bad := map[*localClosure]bool{}
+	var stack []ast.Node
+	ast.Inspect(fd, func(n ast.Node) bool {
+		if n == nil {
+			stack = stack[:len(stack)-1]
+			return true
+		}
+		stack = append(stack, n)
+		id, ok := n.(*ast.Ident)
+		if !ok {
+			return true
+		}
+		lc := byObj[pk.TypesInfo.Uses[id]]
+		if lc == nil {
+			return true
+		}
+		// must be the callee of a call
+		if len(stack) < 2 {
+			bad[lc] = true
+			return true
+		}
+		call, isCall := stack[len(stack)-2].(*ast.CallExpr)
+		if !isCall || ast.Unparen(call.Fun) != ast.Expr(id) {
+			bad[lc] = true
+			return true
+		}
+		for k := len(stack) - 3; k >= 0; k-- {
+			switch x := stack[k].(type) {
+			case *ast.FuncLit:
+				bad[lc] = true // called from another literal (possibly itself)
+			case *ast.GoStmt:
+				if x.Call == call {
+					bad[lc] = true
+				}
+			case *ast.DeferStmt:
+				if x.Call == call {
+					bad[lc] = true
+				}
+			}
+		}
+		lc.sites = append(lc.sites, &siteInfo{call: call, stack: append([]ast.Node{}, stack[:len(stack)-1]...)})
+		return true
+	})
+	var res []*localClosure
+	for _, lc := range out {
+		if bad[lc] || len(lc.sites) == 0 || len(lc.sites) > maxInlineSites {
+			continue
+		}
+		okLC := true
+		ast.Inspect(lc.lit.Body, func(m ast.Node) bool {
+			switch x := m.(type) {
+			case *ast.DeferStmt:
+				if !insideFuncLit(lc.lit.Body, x) {
+					lc.hasDefer = true
+				}
+			case *ast.CallExpr:
+				if id, ok := x.Fun.(*ast.Ident); ok && id.Name == "recover" {
+					okLC = false
+				}
+			case *ast.LabeledStmt:
+				okLC = false
+			case *ast.Ident:
+				// a free variable of the literal must be the same object at every call site
+				o := pk.TypesInfo.Uses[x]
+				if o == nil || o.Parent() == nil || o.Parent() == pk.Types.Scope() || o.Parent() == types.Universe {
+					return true
+				}
+				if o.Pos() >= lc.lit.Pos() && o.Pos() < lc.lit.End() {
+					return true // declared inside the literal
+				}
+				for _, si := range lc.sites {
+					inner := pk.Types.Scope().Innermost(si.call.Pos())
+					if inner == nil {
+						okLC = false
+						continue
+					}
+					if _, o2 := inner.LookupParent(x.Name, si.call.Pos()); o2 != o {
+						okLC = false
+					}
+				}
+			}
+			return true
+		})
+		if okLC {
+			res = append(res, lc)
+		}
+	}
+	return res
+}
+
+// countIIFE: function literals applied in place (not as go / defer statements) inside fd.
+func countIIFE(fd *ast.FuncDecl) int {
+	if fd.Body == nil {
+		return 0
+	}
+	n := 0
+	var stack []ast.Node
+	ast.Inspect(fd.Body, func(nd ast.Node) bool {
+		if nd == nil {
+			stack = stack[:len(stack)-1]
+			return true
+		}
+		stack = append(stack, nd)
+		if call, ok := nd.(*ast.CallExpr); ok {
+			if _, isLit := ast.Unparen(call.Fun).(*ast.FuncLit); isLit && len(stack) >= 2 {
+				switch stack[len(stack)-2].(type) {
+				case *ast.GoStmt, *ast.DeferStmt:
+				default:
+					n++
+				}
+			}
+		}
+		return true
+	})
+	return n
+}
+
+// countLocalClosureDefs: "name := func(...) {...}" statements inside fd (syntactic).
+func countLocalClosureDefs(fd *ast.FuncDecl) int {
+	if fd.Body == nil {
+		return 0
+	}
+	n := 0
+	ast.Inspect(fd.Body, func(nd ast.Node) bool {
+		if as, ok := nd.(*ast.AssignStmt); ok && as.Tok == token.DEFINE && len(as.Lhs) == 1 && len(as.Rhs) == 1 {
+			if _, isLit := as.Rhs[0].(*ast.FuncLit); isLit {
+				n++
+			}
+		}
+		return true
+	})
+	return n
 }
 
 // hasNewFuncs: cheap syntactic pre-check.
@@ -139,6 +317,12 @@ func hasNewFuncs(repo string, overlay map[string][]byte, known map[string]bool) 
 		rel, _ := filepath.Rel(repo, filepath.Dir(path))
 		for _, d := range f.Decls {
 			if fd, ok := d.(*ast.FuncDecl); ok && !known[funcDeclKey(rel, fd)] {
+				return true
+			}
+			if fd, ok := d.(*ast.FuncDecl); ok && !known["iife:"+funcDeclKey(rel, fd)] && countIIFE(fd) > 0 {
+				return true
+			}
+			if fd, ok := d.(*ast.FuncDecl); ok && !known["lclosure:"+funcDeclKey(rel, fd)] && countLocalClosureDefs(fd) > 0 {
 				return true
 			}
 		}
@@ -338,6 +522,143 @@ func collectInlineEdits(repo string, overlay map[string][]byte, known map[string
 					h.reason = "init/main"
 				}
 				helpers[obj] = h
+			}
+		}
+		// function literals applied in place (func() {...}()) in functions of the reference tree that had none: the same
+		// splice with the literal as the helper and its only call as the site (not for go / defer statements)
+		for i, f := range pk.Syntax {
+			path := pk.CompiledGoFiles[i]
+			if strings.HasSuffix(path, "_test.go") {
+				continue
+			}
+			rel, _ := filepath.Rel(repo, filepath.Dir(path))
+			for _, d := range f.Decls {
+				fd, ok := d.(*ast.FuncDecl)
+				if !ok || fd.Body == nil || known["iife:"+funcDeclKey(rel, fd)] {
+					continue
+				}
+				var stack []ast.Node
+				ast.Inspect(fd, func(n ast.Node) bool {
+					if n == nil {
+						stack = stack[:len(stack)-1]
+						return true
+					}
+					stack = append(stack, n)
+					call, ok := n.(*ast.CallExpr)
+					if !ok {
+						return true
+					}
+					lit, ok := ast.Unparen(call.Fun).(*ast.FuncLit)
+					if !ok || len(stack) < 2 {
+						return true
+					}
+					switch stack[len(stack)-2].(type) {
+					case *ast.GoStmt, *ast.DeferStmt:
+						return true
+					}
+					sig, ok := pk.TypesInfo.TypeOf(lit).(*types.Signature)
+					if !ok || sig.Variadic() {
+						return true
+					}
+					h := &helperInfo{decl: &ast.FuncDecl{Name: ast.NewIdent("__lit"), Type: lit.Type, Body: lit.Body},
+						obj: types.NewFunc(lit.Pos(), pk.Types, "__lit", sig), file: f, path: path, pkg: pk}
+					bad := false
+					ast.Inspect(lit.Body, func(m ast.Node) bool {
+						switch x := m.(type) {
+						case *ast.DeferStmt:
+							if !insideFuncLit(lit.Body, x) {
+								h.hasDefer = true
+							}
+						case *ast.CallExpr:
+							if id, ok := x.Fun.(*ast.Ident); ok && id.Name == "recover" {
+								bad = true
+							}
+						case *ast.LabeledStmt:
+							if !strings.HasPrefix(x.Label.Name, "__i") {
+								bad = true
+							}
+						}
+						return true
+					})
+					if bad {
+						return true
+					}
+					si := &siteInfo{call: call, stack: append([]ast.Node{}, stack...), file: f, path: path}
+					*counter++
+					e, imps, why := spliceSite(pk, overlay, h, si, *counter)
+					if why != "" || strings.HasPrefix(e.text, "(func(") {
+						return true // left as it is (also when only the literal form would be possible: nothing gained)
+					}
+					edits = append(edits, e)
+					for n2, p2 := range imps {
+						if imports[si.path] == nil {
+							imports[si.path] = map[string]string{}
+						}
+						imports[si.path][n2] = p2
+					}
+					notes = append(notes, fmt.Sprintf("function literal applied in place in %s.%s spliced at %s", pk.Name, fd.Name.Name, shortPos(repo, pk.Fset.Position(call.Pos()))))
+					return true
+				})
+			}
+		}
+		// local closures ("name := func(...) {...}" that is only ever called, in the function that defines it), in functions
+		// of the reference tree that had none: every call is spliced and the definition removed
+		for i, f := range pk.Syntax {
+			path := pk.CompiledGoFiles[i]
+			if strings.HasSuffix(path, "_test.go") {
+				continue
+			}
+			rel, _ := filepath.Rel(repo, filepath.Dir(path))
+			for _, d := range f.Decls {
+				fd, ok := d.(*ast.FuncDecl)
+				if !ok || fd.Body == nil || known["lclosure:"+funcDeclKey(rel, fd)] {
+					continue
+				}
+				for _, lc := range localClosures(pk, fd) {
+					var es []textEdit
+					okAll := true
+					for _, si := range lc.sites {
+						si.file, si.path = f, path
+						h := &helperInfo{decl: &ast.FuncDecl{Name: ast.NewIdent(lc.name), Type: lc.lit.Type, Body: lc.lit.Body},
+							obj: types.NewFunc(lc.lit.Pos(), pk.Types, lc.name, lc.sig), file: f, path: path, pkg: pk, hasDefer: lc.hasDefer}
+						*counter++
+						e, imps, why := spliceSite(pk, overlay, h, si, *counter)
+						if why != "" || strings.HasPrefix(e.text, "(func(") || len(imps) > 0 {
+							okAll = false
+							break
+						}
+						es = append(es, e)
+					}
+					if !okAll {
+						continue
+					}
+					// the definition goes: keep its line count
+					srcB := overlay[path]
+					if srcB == nil {
+						srcB, _ = os.ReadFile(path)
+					}
+					a, b := pk.Fset.PositionFor(lc.def.Pos(), false).Offset, pk.Fset.PositionFor(lc.def.End(), false).Offset
+					es = append(es, textEdit{file: path, start: a, end: b, text: strings.Repeat("\n", strings.Count(string(srcB[a:b]), "\n"))})
+					// overlapping edits (a call inside another spliced region) would be dropped one by one: all or nothing
+					overlap := false
+					for x := range es {
+						for y := range es {
+							if x != y && es[x].start < es[y].end && es[y].start < es[x].end {
+								overlap = true
+							}
+						}
+						for _, e0 := range edits {
+							if e0.file == path && es[x].start < e0.end && e0.start < es[x].end {
+								overlap = true
+							}
+						}
+					}
+					if overlap {
+						continue
+					}
+					edits = append(edits, es...)
+					notes = append(notes, fmt.Sprintf("local closure %s of %s.%s spliced into its %d call site(s)", lc.name, pk.Name, fd.Name.Name, len(lc.sites)))
+				}
 			}
 		}
 		if len(helpers) == 0 {
